@@ -107,7 +107,9 @@ JudgeRoundTrip(e) ==
          \o (IF ~topo \/ labS = labO THEN None
              ELSE V("C02.InternalLabels", IF nx THEN AttrClass(labS, labO) ELSE TextClass(e)))
          \o (IF ~topo \/ \A k \in 1..n : lenBad(k) = {} THEN None ELSE V("C02.EdgeLengths", lenClass))
-         \o (IF ~sameCount \/ \A k \in 1..n : rootOk(k) THEN None ELSE V("C02.RootingState", TextClass(e)))
+         \* NeXML: a node label that ends the start tag early (as-shipped escaping of '"') swallows the root attribute
+         \o (IF ~sameCount \/ \A k \in 1..n : rootOk(k) THEN None
+             ELSE V("C02.RootingState", IF nx THEN (IF AttrBad(NodeLabels(S, FALSE)) THEN "nexml_attr_escape" ELSE "-") ELSE TextClass(e)))
          \o (IF nsOk THEN None
              ELSE V("C02.NamespaceLabels", IF nx THEN AttrClass(<<S.ns>>, <<O.ns>>) ELSE TextClass(e)))
 
